@@ -36,6 +36,7 @@ type Verifier struct {
 	funcIDs     map[*ssa.Function]Term
 	defFuns     map[string]string
 	oldRefs     map[Term]bool
+	storeInfo   map[Term]storeRec
 	entryReads  map[Term]bool
 
 	derived map[string]int // embedded struct field -> index (global, stable within a run)
@@ -223,6 +224,7 @@ func (v *Verifier) verifyFunction(key string) (res *FuncResult) {
 	v.funcIDs = map[*ssa.Function]Term{}
 	v.defFuns = map[string]string{}
 	v.oldRefs = map[Term]bool{}
+	v.storeInfo = map[Term]storeRec{}
 	v.entryReads = map[Term]bool{}
 	baseCounter = 0
 	defer func() {
